@@ -9,7 +9,7 @@
 -/
 import Lc3V.Lemmas.PrintAtoms
 import Lc3V.Lemmas.ParseSpan
-import Lc3V.Props.C22
+import Lc3V.Lemmas.C22Core
 namespace Lc3V
 
 /-- a token that is neither a string, nor a label, nor a newline -/
